@@ -13,11 +13,11 @@ ASSUMPTIONS = ["J1939-22: the acceptance logic is exercised on the real code by 
 
 
 def correspondence(ctx):
-    r = corr21.run(ctx, 40 if ctx.quick else 1000, 120 if ctx.quick else 4000, 5)
+    r = corr21.run(ctx, ctx.n(40, 1000), ctx.n(120, 4000), 5)
     # listener flags (all 16 combinations) and the ECU dispatch with int / predicate / unfiltered registrations
     lines = [f"listener {a} {b} {c} {d}" for a in (0, 1) for b in (0, 1) for c in (0, 1) for d in (0, 1)]
     rng = random.Random(ctx.seed * 31 + 5)
-    for _ in range(60 if ctx.quick else 1500):
+    for _ in range(ctx.n(60, 1500)):
         s = ["ecu.new", "preddef 0 0 [5,9]", "preddef 0 1 [9,200]"]
         for k in range(rng.randrange(0, 6)):
             s.append(f"sub 0 {rng.randrange(5)} {rng.choice(['n', 'i5', 'i6', 'i0', 'i255', 'p0', 'p1'])}")
@@ -35,7 +35,7 @@ def correspondence(ctx):
     r['evaluations'] += len(lines)
     if d:
         r['disagreements'].append(d)
-    g = genca.correspondence(ctx, 100 if ctx.quick else 3000, 5)
+    g = genca.correspondence(ctx, ctx.n(100, 3000), 5)
     r['traces'] += g['traces']
     r['evaluations'] += g['evaluations']
     r['disagreements'] += g['disagreements']
@@ -136,7 +136,7 @@ def bystander_case(rng):
 
 def oracle(ctx, full):
     rng = random.Random(ctx.seed * 7907 + 5)
-    n = 40 if (ctx.quick and not full) else 1200
+    n = ctx.n(40, 1200, full)
     findings, evals, distinct, samples = [], 0, set(), []
     for k in range(n):
         sub = random.Random(rng.getrandbits(48))
